@@ -37,6 +37,11 @@ type vf14Case struct {
 	RealWindow  bool  `json:"real_window"` // the BIOS area 0xe0000-0xfffff itself
 	NoPointer   bool  `json:"no_valid_pointer"`
 	DecoyOtherRev bool `json:"decoy_of_other_revision"` // the bad-checksum structures carry the other revision than the genuine pointer
+	// BigLen > 0: the SSDT is BigLen bytes long and its body is filled with BigFill (checksum arithmetic over long runs of
+	// large byte values); BigDsdt: the same for the DSDT
+	BigLen  int  `json:"big_table_length,omitempty"`
+	BigFill byte `json:"big_table_fill,omitempty"`
+	BigDsdt bool `json:"big_dsdt,omitempty"`
 	DecoyExt    bool  `json:"decoy_corrupt_in_extended_part"` // revision>=2: the bad-checksum structures are corrupted in bytes 20..35 only (their first 20 bytes still sum to zero)
 }
 
@@ -93,10 +98,20 @@ func (e *vf14Env) run(run *verifrt.Run, c vf14Case) {
 		return base + uintptr(off)
 	}
 	off := 8192
-	dsdt := mkTable(off, "DSDT", 64, 2, nil)
-	off += 64
+	bigFill := func(b []byte) {
+		for i := sizeofHdr; i < len(b); i++ {
+			b[i] = c.BigFill
+		}
+	}
+	dsdtLen := 64
+	var dsdtFill func([]byte)
+	if c.BigDsdt && c.BigLen > 0 {
+		dsdtLen, dsdtFill = c.BigLen, bigFill
+	}
+	dsdt := mkTable(off, "DSDT", dsdtLen, 2, dsdtFill)
+	off += (dsdtLen + 15) &^ 15
 	if c.DsdtCorrupt {
-		mem[off-1] ^= 0x55
+		mem[8192+dsdtLen-1] ^= 0x55
 	}
 	var addrs []uintptr
 	exp := map[string]uintptr{}
@@ -116,6 +131,9 @@ func (e *vf14Env) run(run *verifrt.Run, c vf14Case) {
 					f.Ext.Dsdt = uint64(dsdt)
 				}
 			}
+		}
+		if vf14Sigs[i] == "SSDT" && c.BigLen > 0 && !c.BigDsdt {
+			length, fill = c.BigLen, bigFill
 		}
 		a := mkTable(off, vf14Sigs[i], length, 1, fill)
 		if c.Corrupt&(1<<uint(k)) != 0 {
@@ -371,6 +389,23 @@ func TestVerifC14(t *testing.T) {
 			}
 		}
 	}
+	// long tables: the byte sum over runs of large values (2 KiB .. 200 KB, constant fills), valid and corrupted, as a
+	// listed table and as the DSDT
+	for _, rev := range []byte{0, 2} {
+		for _, n := range []int{2047, 2048, 2049, 4096, 4099, 8192, 65536 + 3, 200000} {
+			idx++
+			if !run.Mine(idx) {
+				continue
+			}
+			for _, fillB := range []byte{0x00, 0x7f, 0x80, 0xa5, 0xff} {
+				for corrupt := 0; corrupt < 2; corrupt++ {
+					env.run(run, vf14Case{Rev: rev, Slot: 1, Order: []int{2}, Corrupt: corrupt, BigLen: n, BigFill: fillB})
+					env.run(run, vf14Case{Rev: rev, Slot: 1, Order: []int{0, 2, 1}, Corrupt: corrupt << 1, BigLen: n, BigFill: fillB})
+					env.run(run, vf14Case{Rev: rev, Slot: 1, Order: []int{3, 1}, DsdtCorrupt: corrupt == 1, BigLen: n, BigFill: fillB, BigDsdt: true})
+				}
+			}
+		}
+	}
 	if env.real != nil && run.Shard == 0 {
 		for _, rev := range []byte{0, 2} {
 			structLen := 20
@@ -387,6 +422,6 @@ func TestVerifC14(t *testing.T) {
 		}
 		run.Count("real_window_cases", 40)
 	}
-	run.Finish(true, "2 revisions x every admissible 16-byte slot of a 12-slot search window x 4 decoy layouts x every order of <=3 (thorough: 4) of {APIC,HPET,SSDT,FACP} x every corruption subset x DSDT {valid,corrupt} x {one, both} DSDT pointers; root pointer with a bad checksum only; bad-checksum structures corrupted in the first 20 bytes or (revision 2) in the extended part only, of the same or of the other revision than the genuine pointer; arbitrary bytes behind a revision-0 structure; first/last admissible slots of the real BIOS area 0xe0000-0xfffff",
+	run.Finish(true, "2 revisions x every admissible 16-byte slot of a 12-slot search window x 4 decoy layouts x every order of <=3 (thorough: 4) of {APIC,HPET,SSDT,FACP} x every corruption subset x DSDT {valid,corrupt} x {one, both} DSDT pointers; root pointer with a bad checksum only; bad-checksum structures corrupted in the first 20 bytes or (revision 2) in the extended part only, of the same or of the other revision than the genuine pointer; arbitrary bytes behind a revision-0 structure; listed tables and DSDTs of 2047..200000 bytes filled with {00,7f,80,a5,ff}, valid and corrupted; first/last admissible slots of the real BIOS area 0xe0000-0xfffff",
 		"distinct = (revision, table count, corruption mask, DSDT state)")
 }
